@@ -425,7 +425,7 @@ def _fix_strings(dt, data, base, count, rng):
     if dt.kind == "string":
         for i in range(count):
             o = base + i * dt.size
-            ln = rng.randint(0, dt.capacity) if rng.random() < 0.97 else rng.choice([dt.capacity, 0])
+            ln = rng.randint(0, dt.capacity) if rng.random() < 0.96 else rng.choice([dt.capacity, 0, dt.capacity + 1, dt.capacity + 2, dt.capacity + 3])
             data[o:o + 4] = ln.to_bytes(4, "little")
     elif dt.kind == "struct":
         for i in range(count):
